@@ -40,7 +40,7 @@ VerifyFailClose(c) ==
   /\ IF tries[c] < NSlots
        THEN pc' = [pc EXCEPT ![c] = "try"] /\ UNCHANGED tries
        ELSE pc' = [pc EXCEPT ![c] = "failed"] /\ tries' = [tries EXCEPT ![c] = 0]
-  /\ UNCHANGED <<pathInode, slot, linger, deadline, cycles, now, nextIno, overlap>>
+  /\ UNCHANGED <<pathInode, slot, linger, deadline, cycles, now, nextIno, overlap, stamp>>
 
 Ev(c) ==
   \/ /\ E.ev = "clock" /\ E.now = now
@@ -59,7 +59,9 @@ Ev(c) ==
 TraceNext ==
   /\ l <= Len(Tr)
   /\ \/ E.ev = "tick" /\ Tick
-     \/ E.ev # "tick" /\ Ev(E.c)
+     \/ E.ev = "cleanup" /\ IF E.removed THEN Cleanup(0)
+                                        ELSE (pathInode[0] = 0 \/ ~Expired(0)) /\ UNCHANGED vars
+     \/ E.ev \notin {"tick", "cleanup"} /\ Ev(E.c)
   /\ ObsOK
   /\ l' = l + 1
   /\ tid' = tid
